@@ -1,6 +1,6 @@
 (* C16: any call sequence equals the composition of its steps. *)
 From Coq Require Import ZArith List Bool String.
-From Verif Require Import BGate PyVal Ast State Unroll Corr Spec Transforms TransformProofs ModuleSpec ModuleProofs.
+From Verif Require Import BGate PyVal Ast State Unroll Corr Spec Transforms TransformProofs ModuleSpec ModuleProofs Depth DepthModel FixProofs ValidProofs.
 Import ListNotations.
 Open Scope Z_scope.
 
@@ -49,3 +49,29 @@ Example C16_example :
   snd (run [mkMS p false false] [(0%nat, ORemove KBarr true); (0%nat, ONumQ); (0%nat, ORemoveIdle true); (0%nat, OReverse true); (0%nat, ODumps)])
   = [OutUnit; OutZ 3; OutUnit; OutUnit; OutProg [SQubitDecl "q" (Some (ELit (VInt 1))); SGate [] "h" [] [q 0]]].
 Proof. vm_compute. reflexivity. Qed.
+
+(* ---- any sequence of transformations, on the visitor model (Module/ValidProofs.v + Lang/FixProofs.v) ----
+   Starting from a well-formed flat program (what unroll() leaves, Props/C03.v), after ANY sequence of populate / reverse /
+   remove-idle / remove-measurements|barriers|includes steps -- as long as no removal empties an if-block (the known finding
+   C03-empty-if-block: pyqasm itself rejects such a program) -- the program is again a well-formed flat program.  So at every
+   point of the sequence: validate() accepts it, unroll() accepts it and emits it UNCHANGED (interleaved validate()/unroll()
+   calls change nothing; a later step never meets a program an earlier step left invalid), num_qubits is the total of its
+   registers and the depth counters are those of its own operations. *)
+Theorem C16_any_sequence_of_transformations_leaves_a_valid_stable_program fuel ts p :
+  wf_flat env0 p = true -> no_emptied_if ts p = true -> (ldepth (apply_tsteps ts p) < fuel)%nat ->
+  (exists o, run_visit false true [] fuel (apply_tsteps ts p) = Ok o /\
+             num_qubits (o_state o) = total_qubits (apply_tsteps ts p) /\
+             forall r, dof (o_state o) r = depth_after rsrc_eqb (evs_of (apply_tsteps ts p)) r) /\
+  (exists o, run_visit false false [] fuel (apply_tsteps ts p) = Ok o /\ o_stmts o = apply_tsteps ts p).
+Proof. exact (any_sequence_result_is_valid_and_stable fuel ts p). Qed.
+Print Assumptions C16_any_sequence_of_transformations_leaves_a_valid_stable_program.
+
+Example C16_sequence_example :
+  let q i := QIdx "q" [IdxList [IExpr (ELit (VInt i))]] in
+  let p := [SQubitDecl "q" (Some (ELit (VInt 4))); SClassicalDecl (TBit (Some (ELit (VInt 1)))) "c" None;
+            SGate [] "h" [] [q 1]; SBarrier [q 1]; SMeasure (q 1) (Some (QIdx "c" [IdxList [IExpr (ELit (VInt 0))]])); SGate [] "cx" [] [q 1; q 3]]%string in
+  let ts := [TRemove KBarr; TReverse; TRemoveIdle; TPopulate; TRemove KMeas] in
+  wf_flat env0 p = true /\ no_emptied_if ts p = true /\
+  apply_tsteps ts p = [SQubitDecl "q" (Some (ELit (VInt 2))); SClassicalDecl (TBit (Some (ELit (VInt 1)))) "c" None;
+                       SGate [] "h" [] [q 1]; SGate [] "cx" [] [q 1; q 0]]%string.
+Proof. vm_compute. repeat split; reflexivity. Qed.
